@@ -484,6 +484,56 @@ Proof.
       rewrite skipn_app, skipn_all, Nat.sub_diag. simpl. rewrite <- app_assoc. reflexivity.
 Qed.
 
+(* ================================================================== copy / move / swap of whole arrays *)
+(* copy construction / copy assignment: the same objects, capacity = max(count, internal capacity), the source is untouched
+   (array_copy is a function of the source); one allocation iff count > internal capacity *)
+Theorem array_copy_refines (l : list O) r al :
+  array_copy V ic (mkArray (arr_ofo l r) al) =
+    mkArray (arr_ofo l ((if ic <? length l then length l else ic) - length l)) (if ic <? length l then S al else al).
+Proof.
+  unfold array_copy. cbv zeta. simpl body. simpl allocs. replace (cnt (arr_ofo l r)) with (length l) by reflexivity.
+  unfold arr_ofo at 1. cbn [cells]. rewrite firstn_objs_raws by lia. rewrite Nat.sub_diag. unfold raws at 1. simpl repeat.
+  rewrite app_nil_r. reflexivity.
+Qed.
+
+(* move construction: the new array IS the old one (elements, count, capacity); the source is left empty with the internal capacity *)
+Theorem array_move_construct_refines (a : array) :
+  array_move_construct V ic a = (a, mkArray (arr_ofo [] ic) (allocs V a)).
+Proof. reflexivity. Qed.
+
+(* move assignment: the target's items are destroyed, then the target is the source and the source is empty *)
+Theorem array_move_assign_refines (lt ls : list O) rt rs alt als :
+  array_move_assign V ic (mkArray (arr_ofo lt rt) alt) (mkArray (arr_ofo ls rs) als) =
+    Ok (mkArray (arr_ofo ls rs) alt, mkArray (arr_ofo [] ic) alt).
+Proof.
+  unfold array_move_assign. simpl body. destruct (arr_ofo_pre V lt rt) as (Hcn & Hcap & Hlive & Hraw).
+  destruct (destroy_ok V (cnt (arr_ofo lt rt)) (cells (arr_ofo lt rt)) 0) as (c' & -> & _).
+  - unfold cap in Hcap. lia.
+  - intros j Hj. rewrite Hlive by lia. apply mcell_not_raw.
+  - reflexivity.
+Qed.
+
+(* swap exchanges the two arrays completely (contents, counts, capacities) *)
+Theorem array_swap_refines (a b : array) : array_swap V a b = (b, a).
+Proof. reflexivity. Qed.
+
+Lemma array_move_construct_and_swap (a b : array) :
+  array_move_construct V ic a = (a, mkArray (arr_ofo [] ic) (allocs V a)) /\ array_swap V a b = (b, a).
+Proof. split; reflexivity. Qed.
+
+Lemma array_copy_round_refines (l : list O) r al :
+  exists r' al', array_copy_round V ic (mkArray (arr_ofo l r) al) = Ok (mkArray (arr_ofo l r') al') /\ ic <= length l + r'.
+Proof.
+  unfold array_copy_round, array_swap. simpl fst. rewrite array_copy_refines. eexists; eexists; split; [reflexivity|].
+  destruct (Nat.ltb_spec ic (length l)); lia.
+Qed.
+
+Lemma array_move_round_refines (l : list O) r al :
+  array_move_round V ic (mkArray (arr_ofo l r) al) = Ok (mkArray (arr_ofo l r) al).
+Proof.
+  unfold array_move_round, array_move_construct, array_move_assign. simpl. reflexivity.
+Qed.
+
 (* ================================================================== histories over the FULL operation alphabet *)
 Definition ain (l : list O) (x : arg V) : bool := match x with ArgVal _ => true | ArgRef p => p <? length l end.
 Definition is_val (x : arg V) : bool := match x with ArgVal _ => true | ArgRef _ => false end.
@@ -509,6 +559,8 @@ Definition spec_op (l : list O) (o : op V) : option (list O) :=
   | OReserve _ _ => Some l
   | OShrink _ _ => Some l
   | OSet _ i v => if i <? length l then Some (lset l i (Some v)) else None
+  | OCopyRound _ => Some l
+  | OMoveRound _ => Some l
   end.
 Definition op_size (o : op V) : nat := match o with OReserve _ n => n | _ => 0 end.
 
@@ -582,6 +634,10 @@ Proof.
     eexists; eexists; split; [reflexivity|]. lia.
   - (* a[i] = v *) destruct (Nat.ltb_spec i (length l)); inversion Hs; subst l'.
     rewrite array_set_refines by auto. eexists; eexists; split; [reflexivity|]. rewrite length_lset. lia.
+  - (* copy + swap *) inversion Hs; subst l'. destruct (array_copy_round_refines l r al) as (r' & al' & -> & Hc).
+    eexists; eexists; split; [reflexivity|]. lia.
+  - (* move construction + move assignment *) inversion Hs; subst l'. rewrite array_move_round_refines.
+    eexists; eexists; split; [reflexivity|]. lia.
 Qed.
 
 Fixpoint run_ops (a : array) (os : list (op V)) : res array :=
@@ -612,7 +668,8 @@ Qed.
 
 (* ---- no allocation within the reserved capacity: operations that only add / remove / overwrite elements ---- *)
 Definition keeps_buffer (o : op V) : bool :=
-  match o with OShrink _ _ | OAssign _ _ _ | OAssignRange _ _ | OClear _ _ | OInsertInput _ _ _ => false | _ => true end.
+  match o with OShrink _ _ | OAssign _ _ _ | OAssignRange _ _ | OClear _ _ | OInsertInput _ _ _ | OCopyRound _ | OMoveRound _ => false
+  | _ => true end.
 
 Lemma step_no_alloc (l l' : list O) r al (o : op V) B :
   spec_op l o = Some l' -> keeps_buffer o = true -> length l <= B -> length l' <= B -> op_size o <= B -> fits (B + 1) ->
